@@ -21,8 +21,9 @@ TRet   == Is("NewRet") /\ IF Ev.ok THEN NewOk ELSE NewErr(Ev.err)
 TFree  == Is("DmaDealloc") /\ Ev.known /\ Ev.pages_ok /\ DmaDealloc(Ev.pal, Ev.pages, Ev.va_ok, Ev.ap)
 TDrop  == IsT("drop") /\ UNCHANGED lvars
 TEnd   == Is("LEnd") /\ LifeEnd
+THolds == Is("RegionHolds") /\ UNCHANGED lvars      \* bookkeeping for Lifecycle.tla
 
-TraceNext == TReset \/ TUsed \/ TMax \/ TAlloc \/ TSet \/ TInit \/ TRet \/ TFree \/ TDrop \/ TEnd
+TraceNext == TReset \/ TUsed \/ TMax \/ TAlloc \/ TSet \/ TInit \/ TRet \/ TFree \/ TDrop \/ TEnd \/ THolds
 TraceSpec == TraceInit /\ [][TraceNext]_tvars
 
 TraceAccepted ==
